@@ -495,4 +495,24 @@ theorem dense_append {xs rs : List Rec} {n : Int}
       rw [this]
       omega
 
+/-- `newMessageSetFromProto` never panics on an encodable-or-not message list (an unencodable
+message is an error since fix c854ab7). -/
+theorem stamp_no_panic (occ : Bool) (base : Int) (ms : List Msg) (i : Nat) :
+    stamp occ base i ms ≠ .panic := by
+  induction ms generalizing i with
+  | nil => simp [stamp]
+  | cons m ms ih =>
+    unfold stamp
+    simp only [Gen.Log.encodeErrPanics]
+    split
+    · simp
+    · split
+      · simp
+      · have := ih (i + 1)
+        cases h : stamp occ base (i + 1) ms with
+        | ok rs => simp
+        | err e => simp
+        | panic => exact absurd h this
+
+
 end Liftbridge.Proofs.Log
